@@ -36,7 +36,7 @@ LIFE = 50
 
 
 def lat_s(code):
-    return {'0': 0.0, '1ms': 0.001, 'life-1': (LIFE - 1) / 1000, 'life': LIFE / 1000, 'life+20': (LIFE + 20) / 1000}[code]
+    return {'0': 0.0, '1ms': 0.001, 'life-1': (LIFE - 1) / 1000, 'life': LIFE / 1000, 'life+20': (LIFE + 20) / 1000, '400ms': 0.4}[code]
 
 
 def _verdict_obj(fe, v):
@@ -63,17 +63,20 @@ def data_item(sim, fe, it, r, idx):
         if not isinstance(h.express_error, ValueError):
             r.bad('C05/v2/data/express-without-validator-accepted', f'{h.express_error!r}')
         return ('v2', 'data', 'no-validator')
-    h = sim.express(name, lifetime=LIFE, vlat=lat_s(it['lat']), verdict=_verdict_obj(fe, it['verdict']),
-                    validator='default' if supplied else 'none', await_after=0.03 if it.get('await_later') else 0.0)
+    # (life0: InterestLifetime 0 - the Interest is over at once, give or take the library's 100 ms grace for an expired deadline)
+    life = 0 if it.get('life0') else LIFE
+    h = sim.express(name, lifetime=life, vlat=lat_s(it['lat']), verdict=_verdict_obj(fe, it['verdict']),
+                    validator='default' if supplied else 'none', await_after=0.03 if it.get('await_later') else 0.0,
+                    falsy_validator=bool(it.get('falsy')))
     if h.express_error is not None:
         r.bad(f'C05/{fe}/data/express-raised/{exc_site(h.express_error)}', repr(h.express_error))
         return None
     t_data = sim.vl.now_ms()
     sim.deliver(wire, 'task')
-    sim.vl.advance(0.2)
+    sim.vl.advance(0.6 if it.get('life0') else 0.2)
     out = h.outcome
     label = 'none' if out is None else ('data' if out[0] == 'data' else out[1])
-    deadline = h.t0_ms + LIFE
+    deadline = h.t0_ms + (100 if it.get('life0') else LIFE)
     if supplied:
         acc = _accepting(fe, it['verdict'])
         vdone = t_data + int(lat_s(it['lat']) * 1000)
@@ -122,8 +125,9 @@ def data_item(sim, fe, it, r, idx):
         want = 'ValidationFailure' if dsig in ('bad', 'short', 'empty', 'long') else 'data'
         if label != want:
             r.bad(f'C05/legacy/data/default-validator/{label}/expected={want}', f'dsig={dsig}')
-    nontriv = (not supplied) or it['verdict'] not in ('PASS', 'FAIL', True, False) or it['lat'] in ('life', 'life+20')
-    return (fe, 'data', repr(it['verdict']), it['lat'], dsig, it['validator'], bool(it.get('await_later')), bool(it.get('by_digest'))) if nontriv else ()
+    nontriv = (not supplied) or it['verdict'] not in ('PASS', 'FAIL', True, False) or it['lat'] in ('life', 'life+20') or it.get('falsy')
+    return (fe, 'data', repr(it['verdict']), it['lat'], dsig, it['validator'], bool(it.get('await_later')), bool(it.get('by_digest')),
+            bool(it.get('falsy'))) if nontriv else ()
 
 
 # ---- Interest side ------------------------------------------------------------------------------------------------
@@ -374,6 +378,11 @@ def _grid_items(fe):
         # the application expresses, does something else for 30 ms (< lifetime), and only then awaits the result
         yield {'side': 'data', 'validator': 'supplied', 'verdict': v, 'lat': lat, 'dsig': 'digest', 'await_later': True}
         yield {'side': 'data', 'validator': 'supplied', 'verdict': v, 'lat': lat, 'dsig': 'digest', 'by_digest': True}
+        if lat == '0' and v in ('PASS', True):
+            # a validator that needs 400 ms for an Interest whose lifetime is 0: never the payload
+            yield {'side': 'data', 'validator': 'supplied', 'verdict': v, 'lat': '400ms', 'dsig': 'digest', 'life0': True}
+        # the supplied validator is a callable object that is falsy (an 'empty' collection-like policy object)
+        yield {'side': 'data', 'validator': 'supplied', 'verdict': v, 'lat': lat, 'dsig': 'digest', 'falsy': True}
     for dsig in ['none', 'digest', 'bad', 'short', 'empty', 'long']:
         yield {'side': 'data', 'validator': 'none', 'verdict': None, 'lat': '0', 'dsig': dsig}
     for v1, v2 in itertools.product(verdicts, verdicts):
